@@ -111,3 +111,11 @@ class AbsTransitionEvents:
 
     def fire(self, event, data):
         raise NotImplementedError("external")
+
+
+class AbsSubParser:
+    """The reader of one sub-item handed to Item._read_items (a bound classmethod in the real code): called with the parser.
+    The item it returns is represented by an integer handle."""
+
+    def __call__(self, parser):
+        raise NotImplementedError("external")
